@@ -54,6 +54,11 @@ Expressible(cfg, layout, carrier) ==
          [] layout = "bare_modules" -> Len(cfg) = 1 /\ ~HasWindow(cfg[1]) /\ ~HasRegion(cfg[1]) /\ NStreams(cfg[1]) = 1
     \* per-variable attributes can only spell a bare stream mapping
     /\ carrier = "xr_vars" => layout = "bare_streams"
+    \* a bare stream-id mapping whose stream id is the name of a QC module can only be told from a module mapping by
+    \* its depth: some test must carry parameters (a shallower one is a module mapping by definition)
+    /\ (layout = "bare_streams" /\ carrier # "xr_vars" /\ \E s \in 1..NStreams(cfg[1]) : cfg[1].streams[s].id \in DOMAIN KnownTests)
+          => \E s \in 1..NStreams(cfg[1]) : \E j \in 1..Len(cfg[1].streams[s].entries) :
+                 cfg[1].streams[s].entries[j].params \notin {"empty", "null"}
     \* objects are built from the list of contexts and must hold at least one call to be recognised as such
     /\ carrier \in ObjectCarriers => layout = "contexts" /\ HasKnown(cfg)
     /\ carrier = "mixed_list" => Len(cfg) >= 2
